@@ -118,4 +118,127 @@ theorem run_bounded (ops : List Op) (s : St) (h : s.Bounded) : (run s ops).Bound
     simp only [run, List.foldl_cons] at this ⊢
     exact ⟨this.1, by rw [this.2, step_cap]⟩
 
+/-! ### the association list stays a faithful `BTreeMap`: keys strictly ascending -/
+
+def Sorted (l : List (Nat × Smp)) : Prop := l.Pairwise (fun a b => a.1 < b.1)
+
+theorem mem_ins {k : Nat} {v : Smp} {l : List (Nat × Smp)} {e : Nat × Smp} (h : e ∈ ins k v l) : e.1 = k ∨ e ∈ l := by
+  induction l with
+  | nil => simp [ins] at h; left; rw [h]
+  | cons hd t ih =>
+    obtain ⟨k', v'⟩ := hd
+    unfold ins at h
+    split at h
+    · simp only [List.mem_cons] at h ⊢
+      rcases h with h | h | h
+      · left; rw [h]
+      · right; left; exact h
+      · right; right; exact h
+    · split at h
+      · simp only [List.mem_cons] at h ⊢
+        rcases h with h | h
+        · left; rw [h]
+        · right; right; exact h
+      · simp only [List.mem_cons] at h ⊢
+        rcases h with h | h
+        · right; left; exact h
+        · rcases ih h with h | h
+          · left; exact h
+          · right; right; exact h
+
+theorem sorted_ins (k : Nat) (v : Smp) (l : List (Nat × Smp)) (h : Sorted l) : Sorted (ins k v l) := by
+  induction l with
+  | nil => simp [ins, Sorted]
+  | cons hd t ih =>
+    obtain ⟨k', v'⟩ := hd
+    unfold Sorted at h ih ⊢
+    rw [List.pairwise_cons] at h
+    unfold ins
+    split
+    · rename_i hlt
+      rw [List.pairwise_cons]
+      refine ⟨?_, List.pairwise_cons.mpr h⟩
+      intro e he
+      simp only [List.mem_cons] at he
+      rcases he with he | he
+      · rw [he]; exact hlt
+      · have := h.1 e he; simp only at this ⊢; omega
+    · split
+      · rename_i _ heq
+        rw [List.pairwise_cons]
+        refine ⟨?_, h.2⟩
+        intro e he
+        have := h.1 e he; simp only at this ⊢; omega
+      · rename_i hn1 hn2
+        rw [List.pairwise_cons]
+        refine ⟨?_, ih h.2⟩
+        intro e he
+        rcases mem_ins he with he | he
+        · simp only; omega
+        · exact h.1 e he
+
+theorem sorted_tail {l : List (Nat × Smp)} (h : Sorted l) : Sorted l.tail := by
+  unfold Sorted at *; cases l with
+  | nil => simp
+  | cons a t => exact (List.pairwise_cons.mp h).2
+
+theorem sorted_filter {l : List (Nat × Smp)} (p : Nat × Smp → Bool) (h : Sorted l) : Sorted (l.filter p) := by
+  unfold Sorted at *; exact h.filter p
+
+def St.KeysAscending (s : St) : Prop := Sorted s.samples
+
+theorem store_sorted (s : St) (seq : Nat) (x : Smp) (h : s.KeysAscending) : (s.store seq x).KeysAscending := by
+  unfold St.KeysAscending St.store at *
+  simp only
+  split
+  · exact sorted_ins _ _ _ (sorted_tail h)
+  · exact sorted_ins _ _ _ h
+
+theorem restart_sorted (s : St) (seq : Nat) (x : Smp) : (s.restart seq x).KeysAscending := by
+  simp [St.restart, St.KeysAscending, Sorted]
+
+theorem afterSeq_sorted (s : St) (seq : Nat) (x : Smp) (clock : Nat) (h : s.KeysAscending) :
+    (s.afterSeq seq x clock).KeysAscending := by
+  unfold St.afterSeq
+  simp only []
+  repeat' split
+  all_goals first
+    | exact restart_sorted _ _ _
+    | exact store_sorted _ _ _ h
+    | (apply store_sorted; simp [St.KeysAscending, Sorted])
+
+theorem noteSsrc_sorted (s : St) (x : Smp) (h : s.KeysAscending) : (s.noteSsrc x).KeysAscending := by
+  unfold St.noteSsrc; split <;> exact h
+
+theorem push_sorted (s : St) (x : Smp) (h : s.KeysAscending) : (s.push x).KeysAscending := by
+  unfold St.push
+  repeat' split
+  all_goals first
+    | exact h
+    | exact restart_sorted _ _ _
+    | exact noteSsrc_sorted _ _ h
+    | exact afterSeq_sorted _ _ _ _ (noteSsrc_sorted _ _ h)
+
+theorem pop_sorted (s : St) (a : Bool) (h : s.KeysAscending) : (s.pop a).1.KeysAscending := by
+  unfold St.pop
+  split
+  · exact h
+  · split
+    · unfold St.take
+      split
+      · exact sorted_filter _ h
+      · exact h
+    · exact h
+
+theorem run_sorted (ops : List Op) (s : St) (h : s.KeysAscending) : (run s ops).KeysAscending := by
+  induction ops generalizing s with
+  | nil => exact h
+  | cons op rest ih =>
+    simp only [run, List.foldl_cons]
+    apply ih
+    cases op with
+    | push x => exact push_sorted s x h
+    | pop a => exact pop_sorted s a h
+    | reset => simp [St.step, St.reset, St.KeysAscending, Sorted]
+
 end RtcModel.Jitter
